@@ -158,7 +158,7 @@ package loadbalancer
 
 // ---- probes
 //@ func (*LoadBalancer).processHealthCheckResponse
-//@   props C04 C12 C13
+//@   props C04 C12 C13 C02
 //@   mode seq, mon
 //@   ghost entry :: mirrorAgreedAtEveryRelease := true
 //@   ghost release Mutex :: mirrorAgreedAtEveryRelease := mirrorAgreedAtEveryRelease && mirrorAgrees(lb, backend)
@@ -173,7 +173,7 @@ package loadbalancer
 //@   modifies backend.IsHealthy, backend.UnhealthyUntil, mapof(lb.metricsCollector.metrics.BackendMetrics), metrics.BackendMetrics.IsHealthy, metrics.BackendMetrics.LastHealthCheck, mirrorAgreedAtEveryRelease
 
 //@ func (*LoadBalancer).handleHealthCheckFailure
-//@   props C04 C12 C13
+//@   props C04 C12 C13 C02
 //@   requires backend != nil && unlocked(backend.Mutex) && lbOK(lb)
 //@   requires unlocked(lb.metricsCollector.metrics.mutex) && bmCellsOK(lb.metricsCollector)
 //@   ensures unreachable_ejects: !backend.IsHealthy && backend.UnhealthyUntil == now() + lb.healthChecks.passiveTimeout
@@ -526,8 +526,10 @@ package loadbalancer
 //@            metrics.BackendMetrics.IsHealthy, metrics.BackendMetrics.LastHealthCheck, metrics.BackendMetrics.TotalRequests, metrics.BackendMetrics.SuccessfulRequests,
 //@            metrics.BackendMetrics.FailedRequests, metrics.BackendMetrics.AverageResponseTime, metrics.Metrics.SuccessfulRequests, metrics.Metrics.FailedRequests, metrics.Metrics.avgResponseTimeBits, mirrorAgreedAtEveryRelease
 
+// (C05: least_connections compares the in-flight gauges - they are exact only if every dispatch restores its +1 on
+// every exit, the abort by panic included)
 //@ func (*LoadBalancer).proxyRequest
-//@   props C01 C07 C13 C12 C03 C20 C02
+//@   props C01 C07 C13 C12 C03 C20 C02 C05
 //@   may_panic
 //@   requires backend != nil && backend.ReverseProxy != nil && reqOK(lb, r) && lbOK(lb) && idle(lb) && bmCellsOK(lb.metricsCollector) && passiveOK(lb) && below2to63(lb)
 //@   ensures gauge_restored: backend.ActiveConnections == old(backend.ActiveConnections)
@@ -650,6 +652,16 @@ package loadbalancer
 //@             && (forall i int :: {p.pools[backend].idle[i]} 0 <= i && i < old(len(p.pools[backend].idle)) ==> p.pools[backend].idle[i].conn == old(p.pools[backend].idle[i].conn))
 //@   modifies mapof(p.pools), connPool.idle, connPool.active, connPool.backend, connPool.idleTimeout, elems(p.pools[backend].idle), net.Conn.closed
 
+// C20 "never keeps more than max_idle idle connections per backend and closes everything it holds on shutdown":
+// closing one connection changes that backend's active counter and nothing else - the per-backend pools stay where
+// Shutdown (and the next Put, with its max_idle accounting) will find them, their idle lists untouched.
+//@ func (*WebSocketPool).Close
+//@   props C20 C19 C12
+//@   requires unlocked(p.mu) && poolsOK(p)
+//@   ensures kept: poolsOK(p)
+//@   ensures the_connection_is_closed: conn != nil ==> conn.closed
+//@   ensures pools_stay_reachable: len(p.pools) == old(len(p.pools)) && (forall k string :: {p.pools[k]} has(p.pools, k) == old(has(p.pools, k)) && p.pools[k] == old(p.pools[k]))
+//@   modifies connPool.active, net.Conn.closed
 //@ func (*WebSocketPool).Stats
 //@   props C20 C12
 //@   requires unlocked(p.mu) && poolsOK(p)
@@ -970,7 +982,7 @@ package loadbalancer
 
 // a probe routine entered after cancellation sends nothing and touches nothing
 //@ func (*LoadBalancer).checkBackendHealth
-//@   props C19 C04 C03
+//@   props C19 C04 C03 C02
 //@   may_panic
 //@   requires backend != nil && backend.URL != nil && lbOK(lb) && lb.ctx != nil && noBackendLocks() && unlocked(lb.metricsCollector.metrics.mutex) && bmCellsOK(lb.metricsCollector)
 //@   ensures no_probe_after_cancel: old(lb.ctx.cancelled) ==> probesSent == old(probesSent) && backend.IsHealthy == old(backend.IsHealthy) && backend.UnhealthyUntil == old(backend.UnhealthyUntil)
